@@ -222,8 +222,18 @@ func (u *fakeUp) handle(w []byte, proto string) (reply []byte, fail bool) {
 	if b.has('M') {
 		ttls = []int{b.ttl + 7, b.ttl, b.ttl + 300}
 	}
+	// big answers: B ~ 65 KB (330 TXT records of 190 octets), K ~ 3 KB, L ~ 1.3 KB
+	ntxt := 0
+	switch {
+	case b.has('B'):
+		ntxt = 325
+	case b.has('K'):
+		ntxt = 15
+	case b.has('L'):
+		ntxt = 6
+	}
 	u.tr().Emit("up.send", "up", u.tag, "proto", proto, "tok", int(tok), "name", labelsJS(name), "cls", cls, "typ", typ,
-		"rcode", b.rcode, "ttl", b.ttl, "ttls", ttls, "tc", b.has('T'), "kind", kind, "nodata", b.has('N'), "soa", b.has('N') || (b.rcode == 3 && b.has('A')), "opt", b.has('O'))
+		"rcode", b.rcode, "ttl", b.ttl, "ttls", ttls, "tc", b.has('T'), "kind", kind, "nodata", b.has('N'), "soa", b.has('N') || (b.rcode == 3 && b.has('A')), "opt", b.has('O'), "ntxt", ntxt)
 	if kind == "silent" {
 		return nil, false
 	}
@@ -245,6 +255,9 @@ func (u *fakeUp) handle(w []byte, proto string) (reply []byte, fail bool) {
 			r.Answer = append(r.Answer, &dns.A{Hdr: dns.RR_Header{Name: name, Rrtype: dns.TypeA, Class: dns.ClassINET, Ttl: uint32(t)}, A: net.IP(append([]byte(nil), ip[:]...))})
 		}
 	}
+	for i := 0; i < ntxt; i++ {
+		r.Answer = append(r.Answer, &dns.TXT{Hdr: dns.RR_Header{Name: name, Rrtype: dns.TypeTXT, Class: dns.ClassINET, Ttl: uint32(b.ttl)}, Txt: []string{strings.Repeat(string(rune('a'+i%26)), 188)}})
+	}
 	if b.has('N') || b.rcode == 3 && b.has('A') {
 		r.Ns = append(r.Ns, &dns.SOA{Hdr: dns.RR_Header{Name: "test.", Rrtype: dns.TypeSOA, Class: dns.ClassINET, Ttl: uint32(b.ttl)}, Ns: "ns.test.", Mbox: "m.test.", Serial: tok, Refresh: 1, Retry: 2, Expire: 3, Minttl: 4})
 	}
@@ -258,9 +271,13 @@ func (u *fakeUp) handle(w []byte, proto string) (reply []byte, fail bool) {
 			&dns.EDNS0_PADDING{Padding: make([]byte, 17)})
 		r.Extra = append(r.Extra, o)
 	}
+	r.Compress = ntxt > 0
 	out, err := r.Pack()
 	if err != nil {
 		panic(err)
+	}
+	if len(out) > 65535 {
+		panic("fake upstream: reply too large for a frame")
 	}
 	if kind == "garbage" {
 		out = out[:len(out)-2]
